@@ -171,7 +171,7 @@ class Unit:
         rep = json.load(open(base + '.rep.json'))
         g.update(c=base + '.c', o=base + '.o', gb=base + '.gb', roots=roots, functions=rep['functions'], unmodelled=rep['unmodelled'], cut=rep.get('cut', []))
         nb = cfg.get('per_harness', {}).get(harness, {}).get('new_block', cfg.get('new_block', 64))
-        gdefs = (['-DVERIF_NEW_BLOCK=%d' % nb] if nb else []) + ['-D' + x for x in cfg.get('gen_defs', [])]
+        gdefs = (['-DVERIF_NEW_BLOCK=%d' % nb] if nb else []) + ['-D' + x for x in cfg.get('per_harness', {}).get(harness, {}).get('gen_defs', cfg.get('gen_defs', []))]
         rc, out, err, _, _ = sh(['gcc', '-O1', '-w', '-DVERIF_NATIVE_GEN', '-I' + RT] + gdefs + ['-c', g['c'], '-o', g['o']])
         if rc != 0:
             raise Inconclusive('gcc failed on generated C for %s/%s:\n%s' % (self.name, harness, err[-3000:]))
@@ -191,7 +191,7 @@ class Unit:
             cfg = self.cfg
             wrap = os.path.join(self.pdir, cfg['wrap'])
             inc = ['-I' + os.path.join(REPO, 'src'), '-I' + RT]
-            flags = ['-std=c++20', '-O1', '-g', '-w', '-DPHOSG_VERIF', '-fsanitize=address,undefined',
+            flags = ['-std=c++20', '-O1', '-g', '-w', '-DPHOSG_VERIF', '-DVERIF_NATIVE_REAL', '-fsanitize=address,undefined',
                      '-fno-sanitize-recover=undefined', '-fno-omit-frame-pointer', '-ffunction-sections', '-fdata-sections'] + list(cfg.get('cxxflags', []))
             rc, out, err, _, _ = sh(['g++'] + flags + inc + ['-c', wrap, '-o', self.path('real.o')])
             if rc != 0:
@@ -497,12 +497,22 @@ def main():
             u = units[q.d['unit']]
             try:
                 u.gen(q.d['harness'])
+                tv_error = None
                 if not a.no_tv and q.d.get('tv', True):
-                    tv = translation_validation(u, q, work, seed, q.d.get('tv_runs', 60))
-                    q.res['translation_validation'] = tv
-                    with lock:
-                        tv_total['harness_builds'] += 1; tv_total['runs'] += tv['runs']; tv_total['completed'] += tv['completed']
+                    try:
+                        tv = translation_validation(u, q, work, seed, q.d.get('tv_runs', 60))
+                        q.res['translation_validation'] = tv
+                        with lock:
+                            tv_total['harness_builds'] += 1; tv_total['runs'] += tv['runs']; tv_total['completed'] += tv['completed']
+                    except Inconclusive as ex:
+                        # a mismatch does not stop the solver: a counterexample that replays against the real code stands on its
+                        # own; but a PASS from a translation that disagrees with the real code is never reported as success.
+                        tv_error = ex
+                        with lock:
+                            tv_total['mismatches'] += 1
                 kind, cex = run_cbmc(u, q, work, tier)
+                if kind == 'ok' and tv_error is not None:
+                    raise tv_error
                 if kind == 'ok':
                     q.res['verdict'] = 'holds'
                     if q.d.get('expect_fail'):
